@@ -181,14 +181,56 @@ pub enum StrictMode {
 }
 
 /// Which cold call defines the expected answer of `op`.
-fn expectation(mode: StrictMode, op: &Op) -> Op {
+/// The same tree with every CachedSource replaced by what it wraps.
+pub fn uncache(t: &TreeSpec) -> TreeSpec {
+  match t {
+    TreeSpec::Cached { inner, .. } => uncache(inner),
+    TreeSpec::Concat { children, how } => TreeSpec::Concat {
+      children: children.iter().map(uncache).collect(),
+      how: how.clone(),
+    },
+    TreeSpec::Replace { inner, calls } => TreeSpec::Replace {
+      inner: Box::new(uncache(inner)),
+      calls: calls.clone(),
+    },
+    TreeSpec::User { inner, id } => TreeSpec::User {
+      inner: Box::new(uncache(inner)),
+      id: *id,
+    },
+    TreeSpec::Boxed { inner } => TreeSpec::Boxed {
+      inner: Box::new(uncache(inner)),
+    },
+    leaf => leaf.clone(),
+  }
+}
+
+fn is_direct(o: &TreeSpec) -> bool {
+  matches!(o, TreeSpec::Cached { .. }) || matches!(o, TreeSpec::Boxed { inner } if matches!(**inner, TreeSpec::Cached { .. }))
+}
+
+/// C10: the object whose cold answer defines what `obj` must answer: the
+/// wrapped tree (object 0) for the wrapper and its clones; for a parent
+/// composite its *uncached twin* (the same composite over the wrapped tree
+/// itself) when the scenario carries one; `None`: a disturber, not judged.
+fn c10_reference(objects: &[TreeSpec], obj: usize) -> Option<usize> {
+  if obj == 0 {
+    return Some(0);
+  }
+  if is_direct(&objects[obj]) {
+    return Some(0);
+  }
+  let want = uncache(&objects[obj]);
+  (1..objects.len()).find(|j| *j != obj && !objects[*j].contains(&|n| matches!(n, TreeSpec::Cached { .. })) && objects[*j] == want)
+}
+
+/// Which cold call defines the expected answer of `op`.
+fn expectation(mode: StrictMode, objects: &[TreeSpec], op: &Op) -> Op {
   match mode {
     StrictMode::C14 => op.clone(),
     StrictMode::C10 => {
       if is_observer(&op.kind) {
-        // the wrapped source itself is object 0
         Op {
-          obj: 0,
+          obj: c10_reference(objects, op.obj).unwrap_or(0),
           kind: op.kind.clone(),
         }
       } else {
@@ -298,7 +340,7 @@ pub fn check_strict(
   for ops in &scn.threads {
     let mut row = vec![];
     for op in ops {
-      let e = cold(&expectation(mode, op), &mut counters);
+      let e = cold(&expectation(mode, &scn.objects, op), &mut counters);
       if e.is_panic() {
         counters.inc("baseline_panics");
         return ConcResult {
@@ -444,20 +486,28 @@ pub fn check_strict(
   // recorded finding (DESIGN.md 7), not decided here.
   let replace_over_cache: Vec<bool> = scn.objects.iter().map(composite_over_cache).collect();
   // C10: objects whose root is the cache itself (the wrapper and its clones)
-  let direct: Vec<bool> = scn
-    .objects
-    .iter()
-    .map(|o| matches!(o, TreeSpec::Cached { .. }) || matches!(o, TreeSpec::Boxed { inner } if matches!(**inner, TreeSpec::Cached { .. })))
+  // C10: objects that are judged: the wrapper and its clones (against the
+  // wrapped tree) and parent composites that have an uncached twin in the
+  // scenario (against that twin). Other parents and the reference objects
+  // themselves are not judged.
+  let direct: Vec<bool> = (0..scn.objects.len())
+    .map(|i| {
+      i != 0
+        && scn.objects[i].contains(&|n| matches!(n, TreeSpec::Cached { .. }))
+        && c10_reference(&scn.objects, i).is_some()
+    })
     .collect();
   // which object the op being judged ran on (set by the callers below): the
   // composite-over-cache classification is per object (for C10 also when the
   // wrapped tree itself, object 0, contains such a composite)
   let judged_obj = std::cell::Cell::new(0usize);
+  // (Judging simple parents' *positional* answers against their uncached
+  // twins was tried: 12 of 400 k runs on the unchanged tree differ, all through
+  // ConcatSource's closing-segment logic when the cached child stops
+  // delivering an unmapped first chunk — the recorded finding K3. So a
+  // parent's positional differences stay in that class; its text, bytes and
+  // sizes are judged.)
   let fragile_obj = |o: usize| replace_over_cache[o] || (mode == StrictMode::C10 && replace_over_cache[0]);
-  // (Requiring a cached positional answer over an inconsistent wrapped tree to
-  // equal *one of* the tree's own answers was tried and withdrawn: with
-  // untrue positions the derived maps differ in encoding-order details — 58
-  // spurious reports in 400 k runs.)
   let mut mismatch = |violations: &mut Vec<Violation>, counters: &mut Counters, class: &str, attribution_only: bool, detail: String| {
     if attribution_only && fragile_obj(judged_obj.get()) && (class == "map" || class == "stream") {
       counters.inc("composite_over_cache_positions");
@@ -535,7 +585,7 @@ pub fn check_strict(
           continue;
         }
         if is_overflow_panic(m) && is_positional_op(&op.kind) {
-          let eobj = expectation(mode, op).obj;
+          let eobj = expectation(mode, &scn.objects, op).obj;
           if !gated && ascii[op.obj] && ascii[eobj] {
             mismatch(
               &mut violations,
@@ -565,13 +615,13 @@ pub fn check_strict(
           counters.add("fault:eintr_fired", io.eintr);
           counters.add("fault:hard_write_error_fired", io.hard_errors);
         }
-        let eobj = expectation(mode, op).obj;
+        let eobj = expectation(mode, &scn.objects, op).obj;
         if let Some(d) = judge_written(a, plan, &texts[eobj].1) {
           mismatch(&mut violations, &mut counters, "to_writer", false, format!("{}: {}", who, d));
         }
         continue;
       }
-      let eobj = expectation(mode, op).obj;
+      let eobj = expectation(mode, &scn.objects, op).obj;
       let attribution = ascii[op.obj] && ascii[eobj] && !gated;
       if gated && matches!(inner_kind, OpKind::Map { .. } | OpKind::Stream { .. }) {
         // a cache over a sequentially inconsistent tree: C10's finding
@@ -616,7 +666,7 @@ pub fn check_strict(
           obj: o,
           kind: TAIL_OPS[k].clone(),
         };
-        let e = cold(&expectation(mode, &top), &mut counters);
+        let e = cold(&expectation(mode, &scn.objects, &top), &mut counters);
         if e.is_panic() {
           continue;
         }
@@ -641,7 +691,7 @@ pub fn check_strict(
             continue;
           }
           if is_overflow_panic(m) && is_positional_op(&TAIL_OPS[k]) {
-            let eobj = expectation(mode, &top).obj;
+            let eobj = expectation(mode, &scn.objects, &top).obj;
             if !gated && ascii[o] && ascii[eobj] {
               mismatch(
                 &mut violations,
@@ -660,7 +710,7 @@ pub fn check_strict(
           });
           continue;
         }
-        let eobj = expectation(mode, &top).obj;
+        let eobj = expectation(mode, &scn.objects, &top).obj;
         let attribution = ascii[o] && ascii[eobj] && !gated;
         if gated && matches!(TAIL_OPS[k], OpKind::Map { .. } | OpKind::Stream { .. }) {
           continue;
@@ -1070,8 +1120,21 @@ pub fn gen_c10(rng: &mut Rng) -> Scenario {
         }
       }
     };
+    // a simple parent (ConcatSource of leaves and clones of the cache over a
+    // wrapped tree without ReplaceSource / inner caches) is *judged* against
+    // its uncached twin, which is added right behind it
+    let simple_w = !objects[0].contains(&|n| matches!(n, TreeSpec::Replace { .. } | TreeSpec::Cached { .. } | TreeSpec::User { .. }));
+    let simple_parent = matches!(&parent, TreeSpec::Concat { .. });
+    let twin = uncache(&parent);
     objects.push(parent);
+    if simple_w && simple_parent {
+      objects.push(twin);
+    }
   }
+  let n_cached_objs = objects[1..]
+    .iter()
+    .filter(|o| o.contains(&|n| matches!(n, TreeSpec::Cached { .. })))
+    .count();
   let n_threads = match rng.below(10) {
     0..=5 => 1,
     6..=8 => 2,
@@ -1083,7 +1146,8 @@ pub fn gen_c10(rng: &mut Rng) -> Scenario {
   let c0 = rng.chance(600);
   for i in 0..total_ops {
     let t = rng.usize_below(n_threads);
-    let obj = 1 + rng.usize_below(objects.len() - 1);
+    // ops only target objects that contain the cache (never W or a twin)
+    let obj = 1 + rng.usize_below(n_cached_objs);
     let columns = if rng.chance(700) { c0 } else { !c0 };
     let kind = match rng.below(100) {
       0..=29 => OpKind::Map { columns },
